@@ -287,7 +287,8 @@ func (m *tfM) observe(s string, n int64) ([]tfObs, string) {
 		added := 0
 		var walk func(steps []Step) bool
 		walk = func(steps []Step) bool {
-			for _, st := range steps {
+			top := len(steps) > 0 && len(p.Steps) > 0 && &steps[0] == &p.Steps[0]
+			for si, st := range steps {
 				switch st.Kind {
 				case "cond":
 					if m.getterAssert(st.Cond.T) != "" {
@@ -339,7 +340,8 @@ func (m *tfM) observe(s string, n int64) ([]tfObs, string) {
 					// inside the loop is LIVE: it grows with every Add the body has performed so far
 					loop := st.Loop
 					if loopQuiet(loop) && loop.For != nil && loop.CondT != nil {
-						fin, why := m.c.foldLoop(loop, e.hook, m.c.depth(1300, 12000))
+						var ex loopExit
+						fin, why := m.c.foldLoopExit(loop, e.hook, m.c.depth(1300, 12000), nil, &ex)
 						if why == "index out of range" || why == "slice bounds out of range" {
 							obs.Panic = why
 							return false
@@ -350,6 +352,16 @@ func (m *tfM) observe(s string, n int64) ([]tfObs, string) {
 						}
 						for o, v := range fin {
 							loopVals[key(TLoop{o, loop.ID})] = v
+						}
+						// a path that leaves the loop from inside (a helper's `return head, rest` in the round that found the separator) is
+						// the path taken exactly when the fold left by that round; the others when it left by no round
+						want := -1
+						if top {
+							want = inLoopExitPrefix(p, si)
+						}
+						if want != ex.Idx {
+							feasible = false
+							return false
 						}
 						continue
 					}
@@ -723,6 +735,7 @@ func init() {
 				c.R.Floor("C11.R7", n, 4)
 			}},
 			{ID: "C11.R6", Doc: "frame: no two containers share storage, so a write through one path is invisible through every other (= OWN, C09.R2)", Run: func(c *Ctx) { c.R.Floor("C11.R6", ownRule(c, "C11.R6"), 3) }},
+			{ID: "C11.R9", Doc: "a write replaces the addressed field and touches no other: scalar wrappers are immutable after construction (= C09.R5), so entries that share a wrapper with the written slot keep their value", Run: func(c *Ctx) { c09Immutable(c, "C11.R9") }},
 			{ID: "C11.R8", Doc: "TypeOf, which decides reuse-or-replace of an intermediate, reports the stored kind of every field, containers by their interface (= C12.R3)", Run: func(c *Ctx) {
 				c.R.Floor("C11.R8", runAs(c, "C11.R8", c12R3, func(o *Obligation) bool { return strings.Contains(o.Construct, "TypeOf") }), 2)
 			}},
